@@ -175,36 +175,39 @@ func checkLimitResource(cur QueueConfig, parentUserLimits, parentGroupLimits map
 		var ok bool
 		for _, user := range limit.Users {
 			// Is user limit setting exists?
+			// the limit carried down is the merge of everything that applies to the user on the way up: its own
+			// named limits and the wildcard limits, so a type omitted on one level is still checked further down
+			carried := limitMaxResources
 			if existingMax, ok = parentUserLimits[user]; ok {
 				if !existingMax.FitInMaxUndef(limitMaxResources) {
 					return fmt.Errorf("user %s max resource %s of queue %s is greater than immediate or ancestor parent maximum resource %s", user, limitMaxResources.String(), cur.Name, existingMax.String())
 				}
-				curUserLimits[user] = resources.ComponentWiseMin(limitMaxResources, existingMax)
-			} else if existingMax, ok = parentUserLimits[common.Wildcard]; user != common.Wildcard && ok {
+				carried = resources.ComponentWiseMin(carried, existingMax)
+			}
+			if existingMax, ok = parentUserLimits[common.Wildcard]; user != common.Wildcard && ok {
 				if !existingMax.FitInMaxUndef(limitMaxResources) {
 					return fmt.Errorf("user %s max resource %s of queue %s is greater than wildcard maximum resource %s of immediate or ancestor parent queue", user, limitMaxResources.String(), cur.Name, existingMax.String())
 				}
-				curUserLimits[user] = limitMaxResources
-			} else {
-				curUserLimits[user] = limitMaxResources
+				carried = resources.ComponentWiseMin(carried, existingMax)
 			}
+			curUserLimits[user] = carried
 		}
 		for _, group := range limit.Groups {
 			// Is group limit setting exists?
+			carried := limitMaxResources
 			if existingMax, ok = parentGroupLimits[group]; ok {
 				if !existingMax.FitInMaxUndef(limitMaxResources) {
 					return fmt.Errorf("group %s max resource %s of queue %s is greater than immediate or ancestor parent maximum resource %s", group, limitMaxResources.String(), cur.Name, existingMax.String())
 				}
-				// Override with min resource
-				curGroupLimits[group] = resources.ComponentWiseMin(limitMaxResources, existingMax)
-			} else if existingMax, ok = parentGroupLimits[common.Wildcard]; group != common.Wildcard && ok {
+				carried = resources.ComponentWiseMin(carried, existingMax)
+			}
+			if existingMax, ok = parentGroupLimits[common.Wildcard]; group != common.Wildcard && ok {
 				if !existingMax.FitInMaxUndef(limitMaxResources) {
 					return fmt.Errorf("group %s max resource %s of queue %s is greater than wildcard maximum resource %s of immediate or ancestor parent queue", group, limitMaxResources.String(), cur.Name, existingMax.String())
 				}
-				curGroupLimits[group] = limitMaxResources
-			} else {
-				curGroupLimits[group] = limitMaxResources
+				carried = resources.ComponentWiseMin(carried, existingMax)
 			}
+			curGroupLimits[group] = carried
 		}
 	}
 
